@@ -42,7 +42,7 @@ func loadCorpus() ([]corpusCase, error) {
 			d := json.NewDecoder(strings.NewReader(string(b)))
 			d.UseNumber()
 			var suites []struct {
-				Given any `json:"given"`
+				Given any              `json:"given"`
 				Cases []map[string]any `json:"cases"`
 			}
 			if err := d.Decode(&suites); err != nil {
